@@ -32,6 +32,8 @@ func idxC(like Term, i int) Term {
 
 type pathEnd struct{ why string }
 
+var noopPackages = map[string]bool{"log/slog": true, "log": true}
+
 type Finding struct {
 	Kind   string // assert | panic
 	Msg    string
@@ -388,6 +390,21 @@ func (e *Exec) call(fn *ssa.Function, args []Value) Value {
 	}
 	if h, ok := intrinsicFor(fn); ok {
 		return h(e, args)
+	}
+	if fn.Pkg != nil && noopPackages[fn.Pkg.Pkg.Path()] {
+		// logging and formatting-only packages: empty bodies, zero results
+		res := fn.Signature.Results()
+		switch res.Len() {
+		case 0:
+			return nil
+		case 1:
+			return zero(res.At(0).Type())
+		}
+		t := VTuple{}
+		for i := 0; i < res.Len(); i++ {
+			t.E = append(t.E, zero(res.At(i).Type()))
+		}
+		return t
 	}
 	if isNoopCallee(fn.String()) {
 		return nil
